@@ -417,6 +417,8 @@ class ObjRun:
                     self.op_invalid_cond(target)
                 elif k == "dim_agnostic":
                     self.op_dim_agnostic(op)
+                elif k == "testproblem":
+                    self.op_testproblem(op)
             except core.SimCrash:
                 ctx.count("ops_crashed_by_fault")
             except Exception as e_:
@@ -600,9 +602,36 @@ class ObjRun:
                 if self.add(new, "derived", o.path + [step], o.fixed, o.root) is None:
                     return
                 act = op.get("act", "sample_prior")
-                _try(lambda: bp.MAP() if act == "MAP" else getattr(bp, act)(6))
+                _try(lambda: bp.MAP() if act == "MAP" else (bp.ML() if act == "ML" else getattr(bp, act)(6)))
             self.ctx.hit("problem_interface_" + act)
             return
+        if op["sampler"] in ("HybridGibbs", "Gibbs") and not (isinstance(obj, JointDistribution) and not isinstance(obj, Distribution)
+                                                              and not any(n_.startswith("y") for n_ in obj.get_parameter_names())):
+            # reach a joint over the unknowns first: the data are fixed on the root joint
+            cands = [o_ for o_ in self.pool if isinstance(o_.obj, JointDistribution) and not isinstance(o_.obj, Distribution)
+                     and o_.root == "J" and not any(n_.startswith("y") for n_ in o_.obj.get_parameter_names())
+                     and not any(s_.get("alt") or s_.get("special") for s_ in o_.path)]
+            if not cands:
+                ynames = [n_ for n_ in self.G["names"] if n_.startswith("y") and n_ in self.vals]
+                J0 = self.pool[0]
+                if not ynames or J0.root != "J" or J0.path:
+                    return
+                step0 = {"names": ynames, "how": "kw"}
+                try:
+                    with core.quiet():
+                        Jy = self.apply_cond(J0.obj, step0)
+                except core.SimCrash:
+                    raise
+                except Exception:
+                    return
+                if not (isinstance(Jy, JointDistribution) and not isinstance(Jy, Distribution)):
+                    return
+                o2 = self.add(Jy, "derived", [step0], set(ynames), "J")
+                if o2 is None:
+                    return
+                cands = [o2]
+            o = cands[op.get("pick", 0) % len(cands)]
+            obj = o.obj
         with core.quiet():
             if isinstance(obj, Posterior) and op["sampler"] in ("MH", "LinearRTO", "legacyMH"):
                 def go():
@@ -614,14 +643,32 @@ class ObjRun:
                         M.LinearRTO(obj, maxit=5).sample(3)
                 _try(go)
                 self.ctx.hit("sampler_on_posterior")
-            elif isinstance(obj, JointDistribution) and not isinstance(obj, Distribution) and op["sampler"] == "HybridGibbs":
+            elif isinstance(obj, JointDistribution) and not isinstance(obj, Distribution) and op["sampler"] in ("HybridGibbs", "Gibbs"):
                 pn = obj.get_parameter_names()
+
                 def go():
-                    strat = {n: M.MH(scale=0.2, initial_point=_f(self.vals[n])) for n in pn}
-                    M.HybridGibbs(obj, strat).sample(3)
+                    if op["sampler"] == "HybridGibbs":
+                        strat = {n: M.MH(scale=0.2, initial_point=_f(self.vals[n])) for n in pn}
+                        g_ = M.HybridGibbs(obj, strat)
+                        g_.sample(3)
+                        S_ = g_.get_samples()
+                    else:
+                        mk_ = lambda target: LS.MH(target, scale=0.2)
+                        S_ = LS.Gibbs(obj, {n: mk_ for n in pn}).sample(3)
+                    return {n: np.array(S_[n].samples, float) for n in pn}
                 if all(n in self.vals for n in pn) and "y" not in pn and "y1" not in pn:
-                    _try(go)
+                    # the SAME joint is handed to two sampler runs on the same stretch of the random tape: a run leaves
+                    # nothing behind on the object it was given, so the second run reproduces the first
+                    tape = np.random.get_state()
+                    a_ = _try(go)
+                    np.random.set_state(tape)
+                    b_ = _try(go)
                     self.ctx.hit("gibbs_on_joint")
+                    self.ctx.count("decisions")
+                    same = a_[0] == b_[0] and (a_[0] != "ok" or all(np.array_equal(a_[1][n], b_[1][n], equal_nan=True) for n in pn))
+                    if not same and not self.fault_fired:
+                        self.ctx.violate("C11", "second_sampler_run_on_same_object_differs",
+                                         {"engine": "objhist", "sampler": op["sampler"], "graph": self.sc["graph"]["graph"]})
 
     def op_special(self, o, op):
         from cuqi.distribution import JointDistribution, Distribution
@@ -653,6 +700,50 @@ class ObjRun:
             if o.root == "J" and not any(s_.get("special") or s_.get("alt") for s_ in o.path) and not close(w, self.total, 1e-9):
                 ctx.violate("C01", "wrong_value", {"engine": "objhist", "obj_class": type(obj).__name__,
                                                    "how": "kw", "graph": self.sc["graph"]["graph"]}, got=w, expected=self.total)
+
+    def op_testproblem(self, op):
+        """A prior the user built is handed to a shipped test problem (which keeps its own copy); the user's object must
+        behave afterwards like a twin that was never handed over."""
+        import cuqi.testproblem as TPm
+        from cuqi.distribution import Gaussian, GMRF
+        ctx = self.ctx
+        kind = op["tp"]
+        k = 4
+        n_ = k * k if kind == "Deconvolution2D" else 8
+
+        def mk():
+            if op["prior"] == "gmrf" and kind != "Deconvolution2D":
+                return GMRF(np.zeros(n_), 2.0, name="x")
+            return Gaussian(np.zeros(n_), 0.7, name="x")
+
+        def sig(d_):
+            g_ = d_.geometry
+            x_ = np.linspace(-1, 1, n_)
+            return [("geometry", _try(lambda: [type(g_).__name__, list(g_.par_shape), list(np.atleast_1d(g_.fun_shape))])),
+                    ("dim", _try(lambda: float(d_.dim))), ("logd", _try(lambda: _f(d_.logd(x_)))),
+                    ("sample", _try(lambda: _f(d_.sample(1, rng=np.random.RandomState(3))))),
+                    ("funvals", _try(lambda: list(np.shape(d_.sample(1, rng=np.random.RandomState(3)).funvals))))]
+        user, twin = mk(), mk()
+        with core.quiet():
+            try:
+                if kind == "Deconvolution2D":
+                    tp = TPm.Deconvolution2D(dim=k, PSF_size=3, prior=user)
+                elif kind == "Deconvolution1D":
+                    tp = TPm.Deconvolution1D(dim=n_, PSF_size=3, prior=user)
+                else:
+                    tp = TPm.Poisson1D(dim=n_ + 1, prior=user) if False else TPm.Deconvolution1D(dim=n_, PSF="moffat", PSF_size=3, prior=user)
+                _try(lambda: tp.posterior.logd(np.zeros(n_)))
+            except core.SimCrash:
+                raise
+            except Exception:
+                return
+        ctx.hit("prior_handed_to_testproblem")
+        ctx.count("decisions")
+        kdiff = sig_equal(sig(user), sig(twin))
+        if kdiff is not None:
+            ctx.violate("C11", "signature_differs_from_twin",
+                        {"engine": "objhist", "obj_class": type(user).__name__, "key": kdiff, "root": "user_prior", "after": "testproblem",
+                         "derived": False}, tp=kind)
 
     def op_dim_agnostic(self, op):
         """A conditional distribution whose dimension is not known until it is conditioned (no geometry, parameters
@@ -959,8 +1050,8 @@ def gen_case(r, tier):
         elif x < 0.76:
             ops.append({"op": "recondition_many", "on": on, "times": r.choice([200, 500, 2000]), "pick": r.randrange(1000)})
         elif x < 0.82:
-            ops.append({"op": "sampler", "on": on, "sampler": r.choice(["MH", "LinearRTO", "legacyMH", "HybridGibbs", "problem", "problem"]),
-                        "pick": r.randrange(100), "act": r.choice(["sample_prior", "sample_prior", "sample_posterior", "MAP"])})
+            ops.append({"op": "sampler", "on": on, "sampler": r.choice(["MH", "LinearRTO", "legacyMH", "HybridGibbs", "Gibbs", "problem", "problem"]),
+                        "pick": r.randrange(100), "act": r.choice(["sample_prior", "sample_prior", "sample_posterior", "MAP", "ML"])})
         elif x < 0.90:
             ops.append({"op": "special", "on": on, "what": r.choice(["to_likelihood", "stacked"])})
         elif x < 0.915:
@@ -974,7 +1065,10 @@ def gen_case(r, tier):
             ops.append({"op": "inplace", "on": on})
         elif x < 0.977:
             ops.append({"op": "invalid_cond", "on": on})
-        elif x < 0.985:
+        elif x < 0.981:
+            ops.append({"op": "testproblem", "tp": r.choice(["Deconvolution2D", "Deconvolution2D", "Deconvolution1D", "other"]),
+                        "prior": r.choice(["gauss", "gmrf"])})
+        elif x < 0.987:
             ops.append({"op": "dim_agnostic", "pick": r.randrange(10 ** 6), "fam": r.choice(["normal", "laplace"])})
         else:
             if TAGS[g]:
